@@ -7,7 +7,7 @@ class Driver(ChanDriver):
     PID = 'C05'
     PROP = 'c05_ok'
     PROFILES = [('rpc', 150, 2000), ('errors', 40, 400), ('get', 60, 600)]
-    CONC = [('rpc', concdrv.gen_rpc, 'conc_own_reply_ok', 40, 600)]
+    CONC = [('rpc', concdrv.gen_rpc, 'conc_own_reply_ok', 100, 1000)]
     RULE = ("scenarios from the profiles ['rpc', 'errors', 'get'] of harness/changen.py: sequences of "
             'application operations on 1-3 channels, each with a script of '
             'inbound frame batches (replies, deliveries, returns, cancels, '
